@@ -78,6 +78,9 @@ def run(ctx):
                 if op == "fitGuards":
                     # relational: the model's guards true => the real replace_step neither raised nor hung
                     rangeplan.check_fit_guards(ctx, replay, out)
+                if op == "fitRaise":
+                    # relational: hypotheses of fit_no_raise / fit_no_raise_while true => the real replace_step returned
+                    rangeplan.check_fit_raise(ctx, replay, out)
                 if op == "fitEmit":
                     # relational: start half always, StepWF under the hypotheses of the theorems, payload of the real step valid
                     rangeplan.check_fit_emit(ctx, replay, out)
@@ -155,6 +158,8 @@ def run(ctx):
                     rst = rangeplan.tie_replace_step(ctx, info, d, f, t, req, reqs, metas)
                     # the guards of the totality theorems (Props/C11.lean), exactly, and: guard true => it did not raise
                     rangeplan.tie_fit_guards(ctx, info, d, f, t, req, rst, reqs, metas)
+                    # the guards of fit_no_raise (lean/PM/FitRaiseGuard.lean), exactly, and: hypotheses true => it returned
+                    rangeplan.tie_fit_raise(ctx, info, d, f, t, req, rst, reqs, metas)
                     # well-formedness of the emitted step (StepWF / aroundShape), exactly, and the payload of the real step
                     rangeplan.tie_fit_emit(ctx, info, val, d, f, t, req, reqs, metas)
                     if name in ("delete_range", "delete"):
